@@ -27,3 +27,28 @@ package art
 //@   prop C08
 //@   pure
 //@   ensures result == t.dirty
+
+// ---- undo of one value-log entry (C08: which flags survive an undo) ------------------------------------------------------
+// leafAt names the leaf stored at an arena address; getLeaf reads it through an unsafe pointer cast into arena memory
+// (outside the subset: trusted, only its determinism is used).
+//@ spec func leafAt(f *artAllocator, idx uint32, off uint32) *artLeaf
+//@ func (*artAllocator) getLeaf
+//@   trusted
+//@   modifies nothing
+//@   ensures result == leafAt(f, addr.idx, addr.off)
+
+// Undoing an entry points the leaf back at its old value. When there was none (the key was new in the undone stage) the
+// leaf keeps exactly the persistent part of its flags; when that part is empty the leaf becomes a deleted leaf carrying
+// no flag at all, and the entry count and size drop by the key. Otherwise count stays and size moves by the value lengths.
+//@ func (*ART) RevertVAddr
+//@   prop C08
+//@   may-panic
+//@   opaque-callee getLeaf GetValue
+//@   requires nulladdr: arena.NullAddr.idx == 4294967295 && arena.NullAddr.off == 4294967295
+//@   requires sep: leafAt(ref(t.allocator), hdr.NodeAddr.idx, hdr.NodeAddr.off) != nil
+//@   ensures addr: leafAt(ref(t.allocator), hdr.NodeAddr.idx, hdr.NodeAddr.off).vLogAddr == hdr.OldValue
+//@   ensures kept: (hdr.OldValue.idx == 4294967295 || hdr.OldValue.off == 4294967295) && (old(leafAt(ref(t.allocator), hdr.NodeAddr.idx, hdr.NodeAddr.off).flags) & 32767) & kv.persistentFlags != 0 ==>
+//@       leafAt(ref(t.allocator), hdr.NodeAddr.idx, hdr.NodeAddr.off).flags == (old(leafAt(ref(t.allocator), hdr.NodeAddr.idx, hdr.NodeAddr.off).flags) & 32767) & kv.persistentFlags && t.len == old(t.len) && t.size == old(t.size) - mathint(hdr.ValueLen)
+//@   ensures gone: (hdr.OldValue.idx == 4294967295 || hdr.OldValue.off == 4294967295) && (old(leafAt(ref(t.allocator), hdr.NodeAddr.idx, hdr.NodeAddr.off).flags) & 32767) & kv.persistentFlags == 0 ==>
+//@       leafAt(ref(t.allocator), hdr.NodeAddr.idx, hdr.NodeAddr.off).flags == 32768 && t.len == old(t.len) - 1 && t.size == old(t.size) - mathint(hdr.ValueLen) - mathint(leafAt(ref(t.allocator), hdr.NodeAddr.idx, hdr.NodeAddr.off).keyLen)
+//@   ensures older: !(hdr.OldValue.idx == 4294967295 || hdr.OldValue.off == 4294967295) ==> leafAt(ref(t.allocator), hdr.NodeAddr.idx, hdr.NodeAddr.off).flags == old(leafAt(ref(t.allocator), hdr.NodeAddr.idx, hdr.NodeAddr.off).flags) && t.len == old(t.len)
